@@ -14,6 +14,8 @@ import (
 	"time"
 
 	"github.com/kardiachain/go-kardia/consensus"
+	"github.com/kardiachain/go-kardia/kai/kaidb"
+	"github.com/kardiachain/go-kardia/kai/kaidb/memorydb"
 	"github.com/kardiachain/go-kardia/lib/common"
 	"github.com/kardiachain/go-kardia/lib/crypto"
 	"github.com/kardiachain/go-kardia/lib/p2p"
@@ -29,6 +31,11 @@ type J = map[string]interface{}
 type netNode struct {
 	*Node
 	tick Ticker
+	// restartable nodes run the REAL receive routine (gated: it takes one input per release) with the real
+	// file WAL, on a database and a directory that survive the process
+	g    *gated
+	db   kaidb.Database
+	root string
 }
 type flight struct {
 	to, from int // validator indices (1-based); from == to: the node's own message
@@ -55,6 +62,8 @@ type netSim struct {
 	maj23   bool // gossip of majority claims (VoteSetMaj23 / VoteSetBits) enabled
 	cut     int  // trace length when the first majority claim was delivered (-1: none); the trace is validated up to here
 	claimed map[string]bool
+	restarts int // restarts done so far
+	walDir   string
 }
 
 func (s *netSim) nameBlock(h uint64, id types.BlockID, prefix string) string {
@@ -215,14 +224,96 @@ func (s *netSim) deliver(f flight) {
 	if abs == nil {
 		abs = s.abstract(f.msg, f.from, own)
 	}
-	nd.CS.VerifHandleMsg(f.msg, peer)
+	if nd.g != nil {
+		s.gatedStep(nd, func() {
+			if own {
+				nd.CS.VerifInjectInternal(f.msg)
+			} else {
+				nd.CS.VerifInjectPeer(f.msg, peer)
+			}
+		})
+	} else {
+		nd.CS.VerifHandleMsg(f.msg, peer)
+	}
 	s.after(nd, J{"k": "msg", "m": abs})
+}
+
+// gatedStep: the node's real receive routine takes exactly one input (writes it to the WAL, handles it) and parks again
+func (s *netSim) gatedStep(nd *netNode, inject func()) {
+	inject()
+	nd.g.release <- struct{}{}
+	select {
+	case <-nd.g.arrive:
+	case <-nd.CS.VerifDone():
+		nd.g.isGated = false
+		panic(fmt.Sprintf("the receive routine of validator %d ended (CONSENSUS FAILURE)", nd.ID))
+	case <-time.After(60 * time.Second):
+		panic("gated node hung")
+	}
+}
+
+func startGatedNode(g *gated) error {
+	gateMu.Lock()
+	gateMap[g.CS] = g
+	gateMu.Unlock()
+	g.isGated = true
+	if err := g.CS.Start(); err != nil {
+		return err
+	}
+	select {
+	case <-g.arrive:
+	case <-time.After(60 * time.Second):
+		return fmt.Errorf("gated node did not reach its receive loop")
+	}
+	return nil
+}
+
+func stopGatedNode(g *gated) {
+	g.isGated = false
+	select {
+	case g.release <- struct{}{}:
+	default:
+	}
+	started := g.CS.IsRunning()
+	g.CS.Stop()
+	if started {
+		// the receive routine stops the WAL (flushing it) on its way out
+		select {
+		case <-g.CS.VerifDone():
+		case <-time.After(10 * time.Second):
+		}
+	}
+	gateMu.Lock()
+	delete(gateMap, g.CS)
+	gateMu.Unlock()
+	g.Close()
+}
+
+// restart: the process of nd stops between two handler calls; a new one is built on the surviving database and
+// WAL directory the way the node starts (load state, open the WAL, catchupReplay, receive routine).
+func (s *netSim) restart(nd *netNode) {
+	stopGatedNode(nd.g)
+	n2, err := BuildNode(s.w, nd.ID, Opts{DB: nd.db, Fresh: false, Cache: cacheFor("flush"), RootDir: nd.root})
+	if err != nil {
+		panic(fmt.Sprintf("validator %d does not start after a restart: %v", nd.ID, err))
+	}
+	g2 := newGated(n2)
+	nd.Node, nd.g, nd.tick = n2, g2, Ticker{}
+	if err := startGatedNode(g2); err != nil {
+		panic(fmt.Sprintf("validator %d does not start after a restart: %v", nd.ID, err))
+	}
+	s.restarts++
+	s.after(nd, J{"k": "restart"})
 }
 
 func (s *netSim) fire(nd *netNode) {
 	ti := nd.tick.TI
 	nd.tick.Armed = false
-	nd.CS.VerifHandleTimeout(ti)
+	if nd.g != nil {
+		s.gatedStep(nd, func() { nd.CS.VerifFireTimeout(ti) })
+	} else {
+		nd.CS.VerifHandleTimeout(ti)
+	}
 	s.after(nd, J{"k": "timeout", "ti": J{"h": ti.Height, "r": ti.Round, "step": int(ti.Step)}})
 }
 
@@ -348,9 +439,11 @@ type netCfg struct {
 	reorderPct int
 	earlyPct   int // probability (in 1/1000) of firing a timer while messages are deliverable
 	byzPct     int
+	restarts   int // at most this many restarts of correct nodes in the adversarial phase (> 0: every node is gated)
+	restartPct int // probability (in 1/1000) per scheduler step
 }
 
-func newNetSim(cfg netCfg, seed int64) (*netSim, error) {
+func newNetSim(cfg netCfg, seed int64, walDir string) (*netSim, error) {
 	w := NewWorld(cfg.powers)
 	s := &netSim{w: w, rng: rand.New(rand.NewSource(seed)), nodes: map[int]*netNode{}, byz: cfg.byz,
 		names: map[uint64]map[common.Hash]string{}, pnames: map[common.Hash]string{}, ids: map[string]types.BlockID{},
@@ -364,11 +457,25 @@ func newNetSim(cfg netCfg, seed int64) (*netSim, error) {
 		if isByz[i] {
 			continue
 		}
-		nd, err := BuildNode(w, i, Opts{Fresh: true})
+		o := Opts{Fresh: true}
+		nn := &netNode{}
+		if cfg.restarts > 0 {
+			db := memorydb.New()
+			if err := cloneGenesisDB(db); err != nil {
+				return nil, err
+			}
+			nn.db, nn.root = db, filepath.Join(walDir, fmt.Sprintf("n%d", i))
+			o = Opts{DB: db, Fresh: true, Cache: cacheFor("flush"), RootDir: nn.root}
+		}
+		nd, err := BuildNode(w, i, o)
 		if err != nil {
 			return nil, err
 		}
-		s.nodes[i] = &netNode{Node: nd}
+		nn.Node = nd
+		if cfg.restarts > 0 {
+			nn.g = newGated(nd)
+		}
+		s.nodes[i] = nn
 		s.order = append(s.order, i)
 		s.nodeNo[i] = len(s.order)
 	}
@@ -377,7 +484,11 @@ func newNetSim(cfg netCfg, seed int64) (*netSim, error) {
 
 func (s *netSim) close() {
 	for _, nd := range s.nodes {
-		nd.Close()
+		if nd.g != nil {
+			stopGatedNode(nd.g)
+		} else {
+			nd.Close()
+		}
 	}
 }
 
@@ -398,7 +509,13 @@ func (s *netSim) header(maxH, maxR int) J {
 func (s *netSim) start() {
 	for _, i := range s.order {
 		nd := s.nodes[i]
-		nd.CS.VerifScheduleRound0()
+		if nd.g != nil {
+			if err := startGatedNode(nd.g); err != nil {
+				panic(err)
+			}
+		} else {
+			nd.CS.VerifScheduleRound0()
+		}
 		for _, ti := range nd.TakeSched() {
 			nd.tick.Schedule(ti)
 		}
@@ -430,6 +547,10 @@ func (s *netSim) runAdversarial(cfg netCfg) {
 	for s.steps < cfg.maxSteps && s.abort == "" && s.minHeight() < cfg.maxH && s.maxRound() < 30 {
 		if len(s.byz) > 0 && s.rng.Intn(1000) < cfg.byzPct*10 {
 			s.byzAct(s.byz[s.rng.Intn(len(s.byz))])
+			continue
+		}
+		if s.restarts < cfg.restarts && s.rng.Intn(1000) < cfg.restartPct {
+			s.restart(s.nodes[s.order[s.rng.Intn(len(s.order))]])
 			continue
 		}
 		early := s.rng.Intn(1000) < cfg.earlyPct
@@ -742,6 +863,10 @@ var netConfigs = map[string]netCfg{
 	"5w-byz":    {powers: []int64{3, 2, 2, 1, 1}, byz: []int{2}, maxH: 3, maxSteps: 3000, dropPct: 8, reorderPct: 35, earlyPct: 25, byzPct: 6},
 	"7eq-byz2":  {powers: []int64{1, 1, 1, 1, 1, 1, 1}, byz: []int{3, 6}, maxH: 3, maxSteps: 4000, dropPct: 6, reorderPct: 30, earlyPct: 20, byzPct: 6},
 	"3eq-nobyz": {powers: []int64{1, 1, 1}, byz: nil, maxH: 4, maxSteps: 2000, dropPct: 10, reorderPct: 40, earlyPct: 30, byzPct: 0},
+	// restarts of correct nodes between handler calls (real receive routine, file WAL, catchupReplay)
+	"4eq-restart":  {powers: []int64{1, 1, 1, 1}, byz: []int{4}, maxH: 5, maxSteps: 3000, dropPct: 8, reorderPct: 35, earlyPct: 25, byzPct: 5, restarts: 6, restartPct: 6},
+	"4w-restart":   {powers: []int64{3, 2, 2, 2}, byz: nil, maxH: 6, maxSteps: 3000, dropPct: 5, reorderPct: 30, earlyPct: 15, byzPct: 0, restarts: 8, restartPct: 8},
+	"5w-restart":   {powers: []int64{3, 2, 2, 1, 1}, byz: []int{2}, maxH: 4, maxSteps: 3000, dropPct: 8, reorderPct: 35, earlyPct: 25, byzPct: 5, restarts: 6, restartPct: 6},
 }
 
 // TestNetRecord runs NET_RUNS seeded adversarial runs of configuration NET_CFG, each followed by a
@@ -761,7 +886,7 @@ func TestNetRecord(t *testing.T) {
 	var files []string
 	for k := 0; k < runs; k++ {
 		seed := mbt.Seed()*1000 + int64(k)
-		s, err := newNetSim(cfg, seed)
+		s, err := newNetSim(cfg, seed, filepath.Join(dir, fmt.Sprintf("wal-%s-%d", cfgName, seed)))
 		if err != nil {
 			res.Mismatch("infra:buildnode", err.Error(), nil)
 			return
